@@ -11,39 +11,16 @@ The worktree is removed afterwards.
 """
 import json, os, re, shutil, subprocess, sys, tempfile
 
-ENV = dict(os.environ, VERIF_NO_CONTROLS="1", GOFLAGS="-mod=mod", GOPROXY="off", GOSUMDB="off", GOTOOLCHAIN="local")
-ENV.pop("GOWORK", None)
-VERIF = "/verif"
-
-def run(cmd, cwd, timeout=900):
-    p = subprocess.run(cmd, cwd=cwd, env=ENV, shell=True, capture_output=True, text=True, timeout=timeout)
-    return p.returncode, (p.stdout + p.stderr)
-
-def failing(repo, prop):
-    """set of rule|construct failing for property prop on tree repo"""
-    code, out = run(f"{VERIF}/bin/pongocheck -repo {repo} -verif {scratch_verif} -property {prop}", VERIF)
-    ev = os.path.join(scratch_verif, "evidence", prop + ".json")
-    res = set()
-    try:
-        cov = json.load(open(ev))["coverage"]
-        for ob in cov.get("failing", []):
-            res.add(ob["rule"] + "|" + ob["construct"])
-    except Exception as e:
-        res.add("ERROR|" + str(e))
-    return res
+sys.path.insert(0, os.path.dirname(os.path.abspath(__file__)))
+from vlib import VERIF, new_failing, run
 
 def main():
-    global scratch_verif
     prop, name, src = sys.argv[1], sys.argv[2], sys.argv[3]
-    claimed = [c["property_id"] for c in json.load(open(f"{VERIF}/MANIFEST.json"))["checks"]]
     wt = tempfile.mkdtemp(prefix="seedwt-", dir="/tmp")
-    os.rmdir(wt)
-    scratch_verif = tempfile.mkdtemp(prefix="seedverif-", dir="/tmp")
-    shutil.copy(f"{VERIF}/known_findings.json", scratch_verif)
     meta = {"seed": name, "property": prop, "source_dir": src, "ran": []}
     ok = True
     try:
-        c, o = run(f"git -C /repo worktree add -q --detach {wt} HEAD", "/")
+        c, o = run(f"git -C /repo archive HEAD | tar -x -C {wt}", "/")
         assert c == 0, o
         patch = os.path.abspath(os.path.join(src, "patch.diff"))
         c, o = run(f"git apply --check {patch} && git apply {patch}", wt)
@@ -81,21 +58,13 @@ def main():
             meta["needs_race_detector"] = bool(race)
         if ok:
             # static checks: which rules see it
-            caught = {}
-            base_repo = "/repo"
-            for p in claimed:
-                new = failing(wt, p) - failing(base_repo, p)
-                if new:
-                    caught[p] = sorted(new)
+            caught = {p: sorted(d) for p, d in new_failing(wt).items()}
             meta["caught_by"] = caught
             meta["detected"] = bool(caught)
             meta["detected_by_own_property"] = prop in caught
             print(("DETECTED by " + json.dumps(caught)) if caught else "NOT DETECTED by any claimed check")
     finally:
-        run(f"git -C /repo worktree remove --force {wt}", "/")
         shutil.rmtree(wt, ignore_errors=True)
-        shutil.rmtree(scratch_verif, ignore_errors=True)
-        run("git -C /repo worktree prune", "/")
     meta["confirmed"] = ok
     if ok:
         dst = os.path.join(VERIF, "seeded", name)
